@@ -25,6 +25,8 @@ def main(tier):
         for rec in recs:
             if "table" in rec:
                 t = rec["table"]
+                if t == "roles":
+                    continue
                 if t == "NodeStamp::is_removed":
                     lo, hi = rec["s_range"]
                     want = hi < 0
@@ -94,27 +96,38 @@ def main(tier):
     # ---- E1: writers and callers
     prog = facts.load("dev", None)
     idx = rules.Index(prog)
+    from vlib.absint.e2run import stamp_roles
+    roles, why = stamp_roles(prog)
+    run.ob("writers", "the stamp helpers are identifiable by role (removal transition, reuse transition, reuseable test, is_removed test)", roles is not None,
+           key="writers|%s" % why, nontrivial="roles")
+    roles = roles or {}
+    run.extra["stamp_roles"] = roles
+    FREE, NEW = "crate::arena::Arena<T>::free_node", "crate::arena::Arena<T>::new_node"
     sites = [s for s in rules.field_sites(prog, STAMP, "0") if s["kind"] in ("write", "mutref")]
     fns = sorted({s["fn"] for s in sites if not prog.fns[s["fn"]].get("impl_derived")})
-    run.ob("writers", "NodeStamp.0 is written only in as_removed and reuse: %s" % fns, set(fns) == {"crate::id::NodeStamp::as_removed", "crate::id::NodeStamp::reuse"},
-           key="writers|NodeStamp.0 written in %s" % ",".join(f for f in fns if f.rsplit("::", 1)[-1] not in ("as_removed", "reuse")), detail=fns, nontrivial="w0", sample=True)
+    extra = [f for f in fns if f not in (roles.get("removed"), roles.get("reuse"))]
+    run.ob("writers", "NodeStamp.0 is written only in the removal and reuse transitions (%s, %s): %s" % (roles.get("removed"), roles.get("reuse"), fns), not extra and len(fns) == 2,
+           key="writers|NodeStamp.0 written in %s" % ",".join(extra), detail=fns, nontrivial="w0", sample=True)
     nsites = [s for s in rules.field_sites(prog, "crate::node::Node", "stamp") if s["kind"] in ("write", "mutref")]
     nf = sorted({s["fn"] for s in nsites if not prog.fns[s["fn"]].get("impl_derived")})
-    allowed = {"crate::arena::Arena<T>::free_node", "crate::node::Node<T>::reuse"}
-    run.ob("writers", "Node.stamp is written/borrowed mutably only in free_node and Node::reuse: %s" % nf, set(nf) <= allowed,
-           key="writers|Node.stamp written in %s" % ",".join(f for f in nf if f not in allowed), detail=nf, nontrivial="w1")
-    aggs = [a["fn"] for a in rules.aggregates(prog, "crate::node::Node") if not prog.fns[a["fn"]].get("impl_derived")]
-    run.ob("writers", "Node values are built only in Node::new: %s" % aggs, set(aggs) == {"crate::node::Node<T>::new"}, key="writers|Node built outside Node::new", detail=aggs)
+    badn = [f for f in nf if not idx.gated(f, {FREE, NEW})]
+    run.ob("writers", "Node.stamp is written/borrowed mutably only below free_node / new_node: %s" % nf, not badn,
+           key="writers|Node.stamp written in %s" % ",".join(badn), detail=[(b, idx.ungated_path(b, {FREE, NEW})) for b in badn] or nf, nontrivial="w1")
+    aggs = sorted({a["fn"] for a in rules.aggregates(prog, "crate::node::Node") if not prog.fns[a["fn"]].get("impl_derived")})
+    bada = [f for f in aggs if not idx.gated(f, {NEW})]
+    run.ob("writers", "Node values are built only below new_node: %s" % aggs, not bada and len(aggs) >= 1, key="writers|Node built outside new_node's helpers: %s" % ",".join(bada), detail=aggs)
     saggs = [a["fn"] for a in rules.aggregates(prog, STAMP) if not prog.fns[a["fn"]].get("impl_derived")]
     run.ob("writers", "NodeStamp values are built only by derived Default/Clone: %s" % saggs, not saggs, key="writers|NodeStamp built in %s" % ",".join(saggs), detail=saggs)
-    for callee, want in (("crate::id::NodeStamp::as_removed", {"crate::arena::Arena<T>::free_node"}),
-                         ("crate::id::NodeStamp::reuse", {"crate::node::Node<T>::reuse"}),
-                         ("crate::node::Node<T>::reuse", {"crate::arena::Arena<T>::new_node"}),
-                         ("crate::node::Node<T>::new", {"crate::arena::Arena<T>::new_node"}),
-                         ("crate::arena::Arena<T>::free_node", {"crate::id::NodeId::remove"})):
-        callers = sorted({k for (k, bi, t) in idx.callers.get(callee, [])})
-        run.ob("callers", "%s is called only from %s" % (callee.split("::", 1)[1], sorted(want)), set(callers) == want and len(callers) > 0,
-               key="callers|%s called from %s" % (callee, ",".join(c for c in callers if c not in want) or "nowhere"), detail=callers, nontrivial=("callers", callee))
+    for role, gate, other in (("removed", FREE, NEW), ("reuse", NEW, FREE)):
+        k = roles.get(role)
+        if not k:
+            continue
+        ok = idx.gated(k, {gate}) and len(idx.users(k)) > 0
+        run.ob("callers", "the %s transition (%s) is reachable only through %s" % (role, k.split("::", 1)[1], gate.split("::", 1)[1]), ok,
+               key="callers|%s transition of the stamp reachable outside %s" % (role, gate.rsplit("::", 1)[-1]), detail=idx.ungated_path(k, {gate}), nontrivial=("callers", role))
+    callers = sorted({k for (k, bi, t) in idx.callers.get(FREE, [])})
+    run.ob("callers", "free_node is called only from NodeId::remove", callers == ["crate::id::NodeId::remove"],
+           key="callers|free_node called from %s" % (",".join(c for c in callers if c != "crate::id::NodeId::remove") or "nowhere"), detail=callers, nontrivial=("callers", "free_node"))
     run.floor("stamp write sites found", len(sites) + len(nsites), 4)
     run.extra["written_argument"] = ("Per slot: the first id carries stamp 0 (Default in Node::new). A slot's stamp is changed only by free_node (live s -> f(s) < 0) and by "
                                      "Node::reuse on a free-list member (f(s) -> g(f(s)) > s by O2). So the live stamps of a slot are strictly increasing and removed stamps are "
